@@ -701,6 +701,13 @@ def main():
             return [hid, ("enum", "Expr::Select", [[[[Ref(inner, 0, ())]], ("string", "field"), False]])]
         if shape == "literal":
             return [hid, ("enum", "Expr::Literal", [("enum", "Val::Null", [])])]
+        if shape.startswith("op:"):
+            # the operand is itself an operator node (`a ? x : (b ? y : z)`, `a && (b && c)`, `-(-x)`): it is evaluated as a whole -
+            # its own operands (handles innerJ_K) are not this node's to evaluate
+            nm = shape[3:]
+            n_inner = 3 if nm == ops.get("CONDITIONAL") else (1 if nm in (ops.get("LOGICAL_NOT"), ops.get("NEGATE")) else 2)
+            inner = [[("opid", "inner%d_%d" % (j, k)), ("enum", "Expr::Ident", [("string", "u%d_%d" % (j, k))])] for k in range(n_inner)]
+            return [hid, ("enum", "Expr::Call", [[("string", nm), ("None",), ("vec", inner)]])]
         return [hid, ("enum", "Expr::Call", [[("string", "g%d" % j), ("None",), ("vec", [])]])]
 
     def run_scenario(opc, ks, shapes=None):
@@ -709,6 +716,7 @@ def main():
         nargs = len(ks)
         shapes = shapes or ["call"] * nargs
         node = Node(name, [R[j][ks[j]] for j in range(nargs)] + [R[j]["null"] for j in range(nargs, 3)])
+        node.results_by_handle = {"inner%d_%d" % (j, k): ("enum", "Result::Ok", [("enum", "Value::Bool", [z3.Bool("inner_%d_%d" % (j, k))])]) for j in range(3) for k in range(3)}
         expr = [7, ("enum", "Expr::Call", [[("string", name), ("None",), ("vec", [operand_expr(j, shapes[j]) for j in range(nargs)])]])]
         pseudo = {0: expr}
         eng = new_engine()
@@ -732,6 +740,8 @@ def main():
             bv = [z3.is_true(mdl.eval(x, model_completion=True)) for x in (b0, b1, b2)]
             k = [kc[x] for x in ks] + [4] * (3 - len(ks))
             sc = {"call": 0, "ident": 1, "select": 2, "literal": 3}
+            if any(x not in sc for x in shapes):
+                return {"nested_operator": True, "op": order.index(opc), "kinds": [kc.get(x, 4) for x in ks] + [4] * (3 - len(ks)), "bools": bv}
             return {"op": order.index(opc), "kinds": k, "ints": iv, "bools": bv, "shapes": [sc[x] for x in shapes] + [0] * (3 - len(shapes))}
 
         def on_path(res, e):
@@ -1073,6 +1083,22 @@ def main():
             for k in kinds:
                 run_scenario(opc, [k])
         run_scenario("NEGATE", ["float"])
+        # an operand that is itself a node of the same operator (nested conditionals / else-if ladders, chains, double negation)
+        cond_shape = "op:" + ops["CONDITIONAL"]
+        for pos in range(3):
+            sh = ["call", "call", "call"]
+            sh[pos] = cond_shape
+            for ks in (["bool", "int", "bool"], ["bool", "err", "int"], ["bool", "int", "err"], ["err", "int", "int"]):
+                run_scenario("CONDITIONAL", list(ks), list(sh))
+        for opc in ("LOGICAL_AND", "LOGICAL_OR"):
+            for pos in range(2):
+                sh = ["call", "call"]
+                sh[pos] = "op:" + ops[opc]
+                for ks in (["bool", "bool"], ["bool", "err"], ["err", "bool"]):
+                    run_scenario(opc, list(ks), list(sh))
+        for opc in ("LOGICAL_NOT", "NEGATE"):
+            for k in ("bool", "int", "err"):
+                run_scenario(opc, [k], ["op:" + ops[opc]])
         for ks in itertools.product(kinds, ["err", "int"], ["err", "bool"]):
             run_scenario("CONDITIONAL", list(ks))
     except Unsupported as u:
